@@ -10,6 +10,7 @@ mod tuplepack;
 mod lz;
 mod container;
 mod queue;
+mod bpq;
 mod collection;
 mod reader;
 mod range;
@@ -40,6 +41,7 @@ fn main() {
         lz::dispatch,
         container::dispatch,
         queue::dispatch,
+        bpq::dispatch,
         collection::dispatch,
         reader::dispatch,
         range::dispatch,
